@@ -284,9 +284,17 @@ def search(ctx, disagreements):
         from lxml import etree
         import treewire
         items = []
+        parsed = []
         for doc, out in grammar_items:
-            root = etree.fromstring(out.encode("utf-8"), etree.XMLParser(remove_blank_text=True))
+            try:
+                root = etree.fromstring(out.encode("utf-8"), etree.XMLParser(remove_blank_text=True))
+            except etree.XMLSyntaxError as e:
+                # a normal return whose serialisation is not even well-formed XML (e.g. an entity reference without its DTD)
+                found.append({"kind": "termination", "input": doc, "tag": None, "detail": "normal return that does not parse as XML: %s" % str(e)[:160]})
+                continue
+            parsed.append((doc, out))
             items.append((treewire.encode(root), 3, False))
+        grammar_items = parsed
         for (doc, out), v in zip(grammar_items, c01.grammar_check(ctx, items)):
             if v:
                 found.append({"kind": "termination", "input": doc, "tag": None, "detail": "normal return violating the picosvg grammar: %s" % v[:3]})
